@@ -79,6 +79,7 @@ type propCfg struct {
 	ThoroughMax int // upper bound on run indices in the thorough tier
 	Race        bool
 	Instrument  bool
+	ColdStart   bool // inject the process-state reset helper (every run starts from a cold process)
 	Rule        string // how cases are generated and what counts as distinct / non-trivial
 	RealStub    map[string]string
 	SimTimeNote string
@@ -188,10 +189,12 @@ func doBuild(cfg *propCfg, prop string) *build {
 	if err := copyFile(filepath.Join(verifDir, "inject", "zz_verif_access.go.txt"), filepath.Join(rapidDir, "zz_verif_access.go")); err != nil {
 		die2("inject accessor: %v", err)
 	}
-	if cfg.Instrument {
-		if err := copyFile(filepath.Join(verifDir, "inject", "zz_verif_e2.go.txt"), filepath.Join(rapidDir, "zz_verif_e2.go")); err != nil {
-			die2("inject e2 accessor: %v", err)
+	if cfg.Instrument || cfg.ColdStart {
+		if err := copyFile(filepath.Join(verifDir, "inject", "zz_verif_reset.go.txt"), filepath.Join(rapidDir, "zz_verif_reset.go")); err != nil {
+			die2("inject reset accessor: %v", err)
 		}
+	}
+	if cfg.Instrument {
 		// verifrt package + yield rewrite (E2)
 		rt := filepath.Join(rapidDir, "verifrt")
 		_ = os.MkdirAll(rt, 0o755)
@@ -231,6 +234,9 @@ func doBuild(cfg *propCfg, prop string) *build {
 	if cfg.Instrument {
 		tags = "verif,e2"
 	}
+	if cfg.ColdStart {
+		tags += ",coldstart"
+	}
 	args := []string{"test", "-c", "-tags", tags, "-trimpath", "-o", b.worker}
 	if cfg.Race {
 		args = append(args, "-race")
@@ -252,6 +258,8 @@ func (b *build) cleanup() {
 		os.RemoveAll(b.root)
 	}
 }
+
+var minBudgetExecs = 300
 
 var workerSeq int
 var workerMu sync.Mutex
@@ -813,6 +821,7 @@ func aggregate(b *build, prop string, cfg *propCfg, tier string, seed uint64, al
 
 	findings := loadFindings()
 	exit := 0
+	minStart := time.Now()
 	knownSeen := map[string]int{}
 	var newViolLines []string
 	sort.Strings(gorder)
@@ -825,6 +834,9 @@ func aggregate(b *build, prop string, cfg *propCfg, tier string, seed uint64, al
 		}
 		// new violation: minimise the first occurrence, replay in a fresh process, report
 		first := g[0]
+		if time.Since(minStart) > 150*time.Second {
+			minBudgetExecs = 1 // overall minimisation budget used up: report the remaining ones unminimised
+		}
 		path, ok := minimiseAndWrite(b, prop, tier, seed, first.v, first.r)
 		if !ok {
 			fmt.Fprintf(os.Stderr, "vcheck: violation %s of run %d did not reproduce in a fresh process: harness nondeterminism (not a verdict)\n", k, first.r.Idx)
@@ -909,7 +921,7 @@ func oneLine(s string) string {
 
 func minimiseAndWrite(b *build, prop, tier string, seed uint64, v Violation, r Result) (string, bool) {
 	sp := Spec{Property: prop, Seed: seed, Tier: tier}
-	m := &minimiser{b: b, spec: sp, rule: v.Rule, sig: v.Sig, start: time.Now(), maxEx: 300, maxT: 60 * time.Second}
+	m := &minimiser{b: b, spec: sp, rule: v.Rule, sig: v.Sig, start: time.Now(), maxEx: minBudgetExecs, maxT: 60 * time.Second}
 	tape := r.Tape
 	// first confirm the recorded tape reproduces in replay mode at all
 	i, r0 := m.test([][]Entry{tape})
